@@ -241,11 +241,14 @@ class ExactGP(GP):
         self.train_inputs = None
         self.train_targets = None
         self.likelihood = None
-        new_model = deepcopy(self)
-        self.prediction_strategy = old_pred_strat
-        self.train_inputs = old_train_inputs
-        self.train_targets = old_train_targets
-        self.likelihood = old_likelihood
+        try:
+            new_model = deepcopy(self)
+        finally:
+            # put the detached attributes back even when the copy fails, so that the source model stays usable
+            self.prediction_strategy = old_pred_strat
+            self.train_inputs = old_train_inputs
+            self.train_targets = old_train_targets
+            self.likelihood = old_likelihood
 
         new_model.likelihood = old_likelihood.get_fantasy_likelihood(**fantasy_kwargs)
         new_model.prediction_strategy = old_pred_strat.get_fantasy_strategy(
